@@ -11,7 +11,7 @@ def dy(rng, lo=-5, hi=5, den=8):
     return Fraction(rng.randint(lo * den, hi * den), den)
 
 
-def make_graph_case(rng, max_e, max_loops, tries=60, catalogue_bias=0.5, names=None, mass_mode=None, ext_modes=None):
+def make_graph_case(rng, max_e, max_loops, tries=60, catalogue_bias=0.5, names=None, mass_mode=None, ext_modes=None, dims=None):
     for _ in range(tries):
         if names:
             name = rng.choice(names); edges = list(gen.CATALOGUE[name])
@@ -20,12 +20,14 @@ def make_graph_case(rng, max_e, max_loops, tries=60, catalogue_bias=0.5, names=N
             edges = list(gen.CATALOGUE[name])
         else:
             name = "random_connected"; edges = gen.random_connected(rng, max_e, max_v=5)
+        if name != "random_connected" and rng.random() < 0.5 and gen.face_basis(name, edges) is None:
+            rng.shuffle(edges)      # the position of an edge in the list matters to index-ordered searches (components, sample_edge)
         edges, _, _ = gen.relabel(rng, edges)
         n = len(edges)
         L = oracle.subset_info(edges, [False] * n, [], (1 << n) - 1)[0]
         if not (1 <= L <= max_loops):
             continue
-        D = rng.randint(1, 6)
+        D = rng.choice(dims) if dims else rng.randint(1, 6)
         c = graphs.make_case(rng, edges, D, want=True, ext_mode=rng.choice(ext_modes or ["all", "subset", "two", "all"]), tries=30, mass_mode=mass_mode)
         verts = set(v for e in edges for v in e)
         next_on_graph = len([v for v in c["ext"] if v in verts])
@@ -220,12 +222,12 @@ def build_tables(cases):
 
 
 def generate(ctx, n_graphs, pts, max_e=6, max_loops=3, kinds=("uniform", "uniform", "corner", "edge1"), variant="random",
-             routings_per_graph=1, names=None, mass_mode=None, special=(), ext_modes=None, scales=(1,), decouple=0.0):
+             routings_per_graph=1, names=None, mass_mode=None, special=(), ext_modes=None, scales=(1,), decouple=0.0, dims=None):
     """returns list of dict(case, routing, table, xs, req, kind); `special` = kinds of make_special_case to append"""
     rng = ctx.rng
     cases = []
     while len(cases) < n_graphs:
-        c = make_graph_case(rng, max_e, max_loops, names=names, mass_mode=mass_mode, ext_modes=ext_modes)
+        c = make_graph_case(rng, max_e, max_loops, names=names, mass_mode=mass_mode, ext_modes=ext_modes, dims=dims)
         if c is not None:
             cases.append(c)
     for kind in special:
@@ -236,7 +238,16 @@ def generate(ctx, n_graphs, pts, max_e=6, max_loops=3, kinds=("uniform", "unifor
     out = []
     for c, b in zip(cases, built):
         if b.get("status") != "ok":
-            ctx.count("sample.graph_rejected_by_impl"); continue
+            ctx.count("sample.graph_rejected_by_impl")
+            nE = len(c["edges"])
+            margin = min([abs(c["table"][m][2]) for m in range(1, (1 << nE) - 1)] or [Fraction(1)])
+            if c.get("accepted") and margin > Fraction(1, 10 ** 9):
+                ctx.extra.setdefault("_rejected_cases", []).append(c)
+                # the tie between the exact subgraph table and the code is broken: nothing can be sampled for this graph
+                ctx.mismatch("build_sampler rejects (or panics on) a graph whose exact subgraph table has no divergent proper subset "
+                             "(smallest |omega| %.3e)" % float(margin), graphs.request(c), {"status": b.get("status"), "msg": str(b.get("msg"))[:200]},
+                             {"status": "ok"})
+            continue
         dec = rng.random() < decouple
         kinem = make_kinematics(rng, c, scale=rng.choice(scales), decouple=dec)
         kinem["decoupled"] = dec
@@ -249,6 +260,23 @@ def generate(ctx, n_graphs, pts, max_e=6, max_loops=3, kinds=("uniform", "unifor
             for k, routing in enumerate(routings):
                 out.append(dict(case=c, routing=routing, table=b["table"], built=b, xs=xs, kind=kind, group=(id(c), i),
                                 routing_index=k, req=sample_request(c, routing, b["table"], xs)))
+    return out
+
+
+def samples_for_cases(ctx, cases, pts, kinds=("uniform",)):
+    """samples for given (already constructed) graph cases; cases the implementation rejects are dropped silently"""
+    rng = ctx.rng
+    out = []
+    for c, b in zip(cases, build_tables(cases)):
+        if b.get("status") != "ok":
+            continue
+        kinem = make_kinematics(rng, c)
+        routing = make_routing(rng, c, "random", kinem)
+        for i in range(pts):
+            kind = kinds[i % len(kinds)]
+            xs = point(rng, b["numVars"], kind, n_edges=len(c["edges"]))
+            out.append(dict(case=c, routing=routing, table=b["table"], built=b, xs=xs, kind=kind, group=(id(c), i), routing_index=0,
+                            req=sample_request(c, routing, b["table"], xs)))
     return out
 
 
